@@ -240,3 +240,6 @@ c10_fn_in_cmp!(c10_length_in_cmp, |sc, arg, t2| { sc.elems[0] = Mini::Null; sc.e
     TestFunction::Length(fnarg_box(&mut arg)), |c| c == sc.o.len as i64);
 c10_fn_in_cmp!(c10_count_in_cmp, |sc, arg, t2| Mini::Null, TestFunction::Count(FnArg::Test(tbox(&mut t2))), |c| c == 1);
 c10_fn_in_cmp!(c10_value_in_cmp, |sc, arg, t2| Mini::Int(7), TestFunction::Value(FnArg::Test(tbox(&mut t2))), |c| c == 7);
+
+// (a no-panic harness for prepare_regex was tried: `str::contains` goes through core's SIMD
+// substring search, no verdict in 400 s.)
